@@ -132,10 +132,10 @@ void cpu_resolve_all(void);      /* run every resolver once (no data-plane call)
 #define C7C_VPOPCNT B(14)
 
 /* ---------- register-poisoned calls (engine/pcall.S) ---------- */
-extern uint64_t v_pcall(void *fn, uint64_t a1, uint64_t a2, uint64_t a3, uint64_t a4, uint64_t a5, uint64_t a6);
+extern uint64_t v_pcall(void *fn, uint64_t a1, uint64_t a2, uint64_t a3, uint64_t a4, uint64_t a5, uint64_t a6, uint64_t a7);
 extern int v_pcall_mode, v_pcall_level; /* mode 0 plain / 1 all-ones / 2 a5; level from the REAL cpu (0 sse, 1 avx, 2 avx512), set by v_init */
-#define v_pcall_n(fn, a, b, c, d, e, f, ...) v_pcall(fn, (uint64_t)(a), (uint64_t)(b), (uint64_t)(c), (uint64_t)(d), (uint64_t)(e), (uint64_t)(f))
-#define PCALL(fn, ...) v_pcall_n((void *)(fn), __VA_ARGS__, 0, 0, 0, 0, 0, 0)
+#define v_pcall_n(fn, a, b, c, d, e, f, g, ...) v_pcall(fn, (uint64_t)(a), (uint64_t)(b), (uint64_t)(c), (uint64_t)(d), (uint64_t)(e), (uint64_t)(f), (uint64_t)(g))
+#define PCALL(fn, ...) v_pcall_n((void *)(fn), __VA_ARGS__, 0, 0, 0, 0, 0, 0, 0)
 
 /* ---------- families ---------- */
 uint64_t xs_next(uint64_t *s);
